@@ -111,7 +111,9 @@ func vf12Body(op vf12Op) []byte {
 		}
 		switch pl.Bad {
 		case "value":
-			m["recordPath"] = "/tmp/verif-without-path-variable"
+			// rejected whether or not a path exists (path defaults are otherwise only validated
+			// through the paths that inherit them)
+			m["recordFormat"] = "verif-no-such-format"
 		case "type":
 			m["maxReaders"] = "many"
 		case "unknown":
@@ -263,6 +265,13 @@ func vf12Exec(t testing.TB, r *vf12Run) {
 	defer tr.CloseIdleConnections()
 	c := &vf12Client{t: t, base: "http://" + api, hc: &http.Client{Transport: tr, Timeout: 10 * time.Second}}
 	_, r.Rest0 = c.observe()
+	// the reference path has given the digest of an untouched path; remove it so that the run
+	// starts from an EMPTY path store (an empty, non-nil map is a different object from a nil or
+	// a populated one for the clone/validate/commit sequence behind every edit)
+	if st, _ := c.do(http.MethodDelete, "/v3/config/paths/delete/ref", nil); st != 200 {
+		t.Fatalf("verif: cannot delete the reference path (status %d)", st)
+	}
+	c.do(http.MethodDelete, "/v3/config/paths/delete/verif-no-such-path", nil)
 	r.Steps = []vf12Step{}
 	for _, op := range r.Ops {
 		var st int
